@@ -1287,3 +1287,28 @@ def gen_legacy(seed, n, start_id=0):
         h.sweep()
         out.append((hid, h.lines))
     return out
+
+
+# ---------------------------------------------------------------------------------------------
+# C06: writer programs whose commits and deletions are parked at every yield point while every
+# committed version is read; pin checks at the end
+
+def gen_conc(seed, n, start_id=0):
+    out = []
+    prof = Profile(p_prune=0.35, p_loadow=0.0, p_reopen=0.1, p_load_old=0.0, p_delfrom=0.0, p_rollback=0.1,
+                   check_all_versions=0.05, reads_per_version=(0, 1), imm_reads_per_version=(0, 1),
+                   meta_per_version=(0, 1), p_hash_read=0.1, versions=(2, 7), nkeys=6, ivs=[None, None, 3],
+                   dbs=["mem", "mem", "ldb"], thrs=[150, 300, 0, 0], caches=[0, 0, 3, 100], p_empty_value=0.05)
+    for i in range(n):
+        rng = random.Random((seed * 67867967 + start_id + i) & 0xFFFFFFFFFFFF)
+        h = Hist(rng, prof, "q%d" % (start_id + i))
+        lines = h.run()
+        if h.dirty:
+            lines.append("rollback")
+        vs = sorted(h.versions)
+        if len(vs) >= 2 and h.base == vs[-1]:
+            v = rng.choice(vs[:-1])
+            nn = rng.choice([x for x in vs[:-1] if x >= v])
+            lines.append("pinprune %d %d %s" % (v, nn, rng.choice(["export:pinned", "export:pinned", "export:before-pin", "prune:checked"])))
+        out.append(("q%d" % (start_id + i), lines))
+    return out
